@@ -85,12 +85,25 @@ def run_real(binary, wd, tag, runs, timeout=3000):
     tracefile = os.path.join(wd, "trace_%s.ndjson" % tag)
     vf.jsonl_write(runfile, runs)
     rc, out, err = vf.run_driver(binary, [tracefile], stdin_path=runfile, timeout=timeout)
-    if rc != 0:
-        raise vf.MachineryError("compexec driver failed rc=%s: %s" % (rc, err[-2000:]))
     res = {}
     for line in out.splitlines():
-        o = json.loads(line)
+        try:
+            o = json.loads(line)
+        except ValueError:
+            continue
         res[o["id"]] = o
+    if rc != 0:
+        # An unrecovered panic in a goroutine of the code under test kills the driver process. That is
+        # behaviour of the real code (C07: "does not crash"), not a machinery failure - but only when the
+        # panic's stack is in the compiler and not in the harness.
+        in_code = ("panic:" in err and "github.com/bufbuild/protocompile.(" in err
+                   and "zzverif" not in err.split("github.com/bufbuild/protocompile.(")[0][-400:])
+        if not in_code:
+            raise vf.MachineryError("compexec driver failed rc=%s: %s" % (rc, err[-2000:]))
+        nxt = next((r for r in runs if r["id"] not in res), runs[-1])
+        first = err[err.index("panic:"):][:1500]
+        res[nxt["id"]] = {"id": nxt["id"], "class": "crash", "err": "process died: " + first, "descs": {}, "leak": 0,
+                          "hung": False, "panic_ok": False, "crashed_process": True}
     return res, tracefile
 
 
@@ -300,7 +313,7 @@ def run(pid, tier, replay=None):
         by_id = {r["id"]: r for r in runs}
         res, tracefile = run_real(binary, wd, name, runs)
         st.runs += len(res)
-        if len(res) < len(runs) and not any(r.get("hung") for r in res.values()):
+        if len(res) < len(runs) and not any(r.get("hung") or r.get("crashed_process") for r in res.values()):
             raise vf.MachineryError("driver returned %d of %d results" % (len(res), len(runs)))
         for rid, r in res.items():
             classify_run(verdict, by_id[rid], cases[by_id[rid]["case"]], r)
